@@ -29,9 +29,9 @@ ASSUMPTIONS = [
     "mutations touch top-level chunks only (embedded projects/effects are exercised through generated files)",
 ]
 # classes of cases that are produced deterministically: their absence is a harness error (see vlib.harness)
-HARD_LABELS = ['fixture']
+HARD_LABELS = ['fixture', 'fixture_option_sweep']
 REQUIRED_LABELS = {
-    "quick": ["fixture", "generated_project", "generated_synth", "cval_out_of_range", "cval_neg_min_out_of_range", "option_bytes", "link_mutation", "pdta_mutation", "generated_metamodule", "user_controller_mapped_to_negative_min"],
+    "quick": ["fixture", "generated_project", "generated_synth", "cval_out_of_range", "cval_neg_min_out_of_range", "option_bytes", "link_mutation", "pdta_mutation", "generated_metamodule", "user_controller_mapped_to_negative_min", "fixture_option_sweep"],
     "thorough": ["fixture", "generated_project", "generated_synth", "cval_out_of_range", "cval_neg_min_out_of_range", "option_bytes", "link_mutation", "pdta_mutation", "fixture_cval_sweep"],
 }
 
@@ -50,6 +50,9 @@ def plan(tier):
     n, per = (15, 150) if tier == "quick" else (16, 3000)
     for i in range(n):
         descs.append({"kind": "mutants", "examples": per})
+    fs_all = fixture_files()
+    for i in range(4):
+        descs.append({"kind": "fixture_option_sweep", "files": fs_all[i::4]})
     if tier == "thorough":
         fs = fixture_files()
         for i in range(8):
@@ -488,6 +491,43 @@ def run_shard(ctx, desc):
             ctx.label("fixture")
             ctx.mark_nontrivial(["fixture", rel])
         ctx.sample({"src": "all fixtures", "count": len(fixture_files()), "cycles": cycles})
+        return
+    if desc["kind"] == "fixture_option_sweep":
+        # every options record found in the fixtures, rewritten so that exactly one option's field is set
+        # (each option in turn, at 1 and at its top value), everything else off - and once all zeros
+        spec = specmodel.load()
+        for f in desc["files"]:
+            rel = os.path.relpath(f, os.path.join(REPO, "tests", "files"))
+            with open(f, "rb") as fh:
+                chunks = chunktools.parse(fh.read())
+            info, types = section_info(chunks)
+            n = 0
+            for i, (cid, payload) in enumerate(chunks):
+                if not (cid == b"CHDT" and i > 0 and chunks[i - 1][0] == b"CHNM"):
+                    continue
+                t = types.get(info[i][0])
+                if t not in spec or not spec[t].options or struct.unpack("<I", chunks[i - 1][1])[0] != spec[t].options_chnm:
+                    continue
+                patterns = [bytes(len(payload))]
+                for o in spec[t].options:
+                    for v in sorted({1, (1 << o.size) - 1}):
+                        bm = bytearray(max(len(payload), o.byte + 1))
+                        bm[o.byte] = (v << o.bit) & 0xFF
+                        patterns.append(bytes(bm))
+                for b in patterns:
+                    ctx.case()
+                    case = {"src": "fixture", "file": rel, "mutations": [["opt", i, b.hex()]]}
+                    try:
+                        r = stability(apply_mutations(chunks, case["mutations"]), 2, rel)
+                        if r == "unloadable":
+                            ctx.label("unloadable")
+                    except PropertyViolation as vio:
+                        ctx.check(False, vio.sub_oracle, vio.detail, key=vio.key, recipe={"case": case})
+                    n += 1
+                    ctx.mark_nontrivial(case)
+            if n:
+                ctx.label("fixture_option_sweep")
+                ctx.sample({"src": "fixture_option_sweep", "file": rel, "mutants": n})
         return
     if desc["kind"] == "fixture_cval_sweep":
         spec = specmodel.load()
